@@ -114,9 +114,17 @@ func Observe(e *engine.Engine, u Universe) *Obs {
 		// reads answered from the secondary indexes (inverted / numeric / text): equality
 		// filters on values that occur in the metadata, and text search on words that
 		// occur in string fields. Compared before / after like everything else.
-		for i, pr := range sortedKeys(probes) {
-			if i >= 24 {
-				break
+		// at most 8 probes per metadata key (a global cap in sorted order would let the
+		// alphabetically first keys crowd out the others, and one more value under an early
+		// key would shift which probes are evaluated at all)
+		perKey := map[string]int{}
+		for _, pr := range sortedKeys(probes) {
+			k := pr
+			if j := strings.Index(pr, " = "); j >= 0 {
+				k = pr[:j]
+			}
+			if perKey[k]++; perKey[k] > 8 {
+				continue
 			}
 			ids, err := e.VFilter(name, pr, 10000)
 			if err != nil {
@@ -128,7 +136,7 @@ func Observe(e *engine.Engine, u Universe) *Obs {
 		}
 		if info.TextLanguage != "" {
 			for i, w := range sortedKeys(words) {
-				if i >= 10 {
+				if i >= 16 {
 					break
 				}
 				res, _ := e.DB.FindIDsByTextSearch(name, "content", w)
